@@ -88,6 +88,8 @@ func c02Variants13() []c02Variant {
 		{Name: "v13", V13: true},
 		{Name: "v13-hrr", V13: true, HRR: true},
 		{Name: "v13-mtu300", V13: true, MTU: 300},
+		{Name: "v13-mtu120", V13: true, MTU: 120},
+		{Name: "v13-hrr-clientauth", V13: true, HRR: true, ClientAuth: true},
 	}
 }
 
@@ -130,9 +132,15 @@ func (v c02Variant) configs(cs, ss *c02Store) (*dtlsConfig, *dtlsConfig) {
 	if ss != nil {
 		s.sessionStore = ss
 	}
+	if c02ConfigHook != nil {
+		c02ConfigHook(c, s)
+	}
 
 	return c, s
 }
+
+// c02ConfigHook lets a debugging run attach loggers to both configurations.
+var c02ConfigHook func(c, s *dtlsConfig)
 
 // ---- trace format
 
